@@ -9,7 +9,8 @@ MODULE = "GoNfsd.Props.C18"
 
 
 def run(ctx):
-    ok_go, ok_drv = seqlib.build_and_prove(ctx, MODULE)
+    ok_go, ok_drv = seqlib.build_and_prove(ctx, MODULE, extra_parts=["skeleton"])
+    seqlib.report_flush_callers(ctx)
     if ok_go:
         tr = os.path.join(ctx.scratch, "kvs.txt")
         args = ["-seqs", "100", "-ops", "400"] if ctx.tier == "thorough" else ["-seqs", "15", "-ops", "200"]
